@@ -24,7 +24,7 @@ def gen(tier, rng, reconnect_values=(0,)):
         for end in ENDS:
             yield {"callbacks": dict(allret), "attempts": [{"evs": tr + end}]}
     # 2. subsets of callbacks
-    n = 150 if tier == "quick" else 3000
+    n = 600 if tier == "quick" else 3000
     for _ in range(n):
         cbs = {c: "ret" for c in CBS if rng.random() < 0.6}
         tr = rng.choice(TRAFFIC) + rng.choice(TRAFFIC)
